@@ -1,8 +1,45 @@
-(* C03: monitor defined in model/C02.v (shared interpreter monitors). *)
+(* C03: two streams.
+   IRun: the interpreter run monitors defined in model/C02.v (shared interpreter monitors).
+   IClock: the decision of PInterpreter._is_awaiting_threshold -- which clock a threshold is measured on and when it
+   counts as reached -- as a function of the facts it reads. *)
 From Coq Require Import ZArith List Bool Arith.
 From OP Require Import lib.Obs model.Interp model.InterpRun model.C02.
-Definition input := InterpRun.input.
-Definition output := InterpRun.output.
-Definition run := InterpRun.run.
-Definition out_eqb := InterpRun.out_eqb.
-Definition holds_b := C02.holds_c03.
+Open Scope Z_scope.
+
+Inductive base_unit := Us | Umin | Uh.
+Definition factor (u : base_unit) : Z := match u with Us => 1 | Umin => 60 | Uh => 3600 end.
+Inductive block_tag_value := TNone | TEmpty | TName.          (* the Block tag: None, "" or a block's name *)
+Record clock := {
+  k_completed : bool; k_has_thr : bool; k_forced : bool;
+  k_in_interrupt : bool;            (* the line is run by a Watch / Alarm handler: makes no difference *)
+  k_block : block_tag_value;
+  k_base : base_unit;               (* the Base tag *)
+  k_thr : Z;                        (* the threshold, in tenths of the base unit *)
+  k_scope_time : Z;                 (* Scope Time, in hundredths of a second *)
+  k_block_time : Z }.               (* Block Time, in hundredths of a second *)
+(* the clock of the line's scope: block time inside a block, scope time otherwise *)
+Definition scope_clock (k : clock) : Z := match k_block k with TName => k_block_time k | _ => k_scope_time k end.
+Definition awaiting_threshold (k : clock) : bool :=
+  negb (k_completed k) && k_has_thr k && negb (k_forced k) && (scope_clock k <? 10 * k_thr k * factor (k_base k)).
+
+Inductive input := IRun (i : InterpRun.input) | IClock (k : clock).
+Inductive output := ORun (o : InterpRun.output) | OClock (awaiting : bool) | OClockRaised.
+Definition run (i : input) : output :=
+  match i with IRun x => ORun (InterpRun.run x) | IClock k => OClock (awaiting_threshold k) end.
+Definition out_eqb (a b : output) : bool :=
+  match a, b with
+  | ORun x, ORun y => InterpRun.out_eqb x y
+  | OClock x, OClock y => Bool.eqb x y
+  | OClockRaised, OClockRaised => true
+  | _, _ => false
+  end.
+(* the property on the observation: the run monitors; for a clock case: the line is held back exactly while the clock of
+   its scope is below the threshold (and it is a thresholded, uncompleted, unforced line) *)
+Definition holds_b (i : input) (o : output) : bool :=
+  match i, o with
+  | IRun x, ORun y => C02.holds_c03 x y
+  | IClock k, OClock a =>
+      Bool.eqb a (negb (k_completed k) && k_has_thr k && negb (k_forced k)
+                  && (match k_block k with TName => k_block_time k | _ => k_scope_time k end <? 10 * k_thr k * factor (k_base k)))
+  | _, _ => false
+  end.
